@@ -27,10 +27,36 @@ struct Signer {
 	remote: Option<keys::Remote>,
 	cert: Certificate,
 	p: PCert,
+	/// how the key came to be ("local", "remote", or the loader it went through)
+	origin: String,
+	/// SubjectPublicKeyInfo of the same private key derived by OpenSSL (loaded keys only)
+	truth_spki: Option<Vec<u8>>,
+}
+
+/// SubjectPublicKeyInfo of a PKCS#8 private key, by OpenSSL
+fn openssl_spki_of_pkcs8(pkcs8: &[u8]) -> Option<Vec<u8>> {
+	openssl::pkey::PKey::private_key_from_pkcs8(pkcs8).ok()?.public_key_to_der().ok()
+}
+
+/// the same private key pushed through every loading entry point of the build
+#[cfg(not(feature = "nocrypto"))]
+fn loaded_keys(alg: &'static SignatureAlgorithm, pkcs8: &[u8]) -> Vec<(String, Result<KeyPair, Error>)> {
+	use rustls_pki_types::{PrivateKeyDer, PrivatePkcs8KeyDer};
+	let pem = pem::encode_config(&pem::Pem::new("PRIVATE KEY", pkcs8.to_vec()), pem::EncodeConfig::new().set_line_ending(pem::LineEnding::LF));
+	let p8 = PrivatePkcs8KeyDer::from(pkcs8.to_vec());
+	let any = PrivateKeyDer::Pkcs8(PrivatePkcs8KeyDer::from(pkcs8.to_vec()));
+	vec![
+		("from_pkcs8_der_and_sign_algo".into(), KeyPair::from_pkcs8_der_and_sign_algo(&p8, alg)),
+		("from_pkcs8_pem_and_sign_algo".into(), KeyPair::from_pkcs8_pem_and_sign_algo(&pem, alg)),
+		("from_der_and_sign_algo".into(), KeyPair::from_der_and_sign_algo(&any, alg)),
+		("from_pem_and_sign_algo".into(), KeyPair::from_pem_and_sign_algo(&pem, alg)),
+		("try_from(PrivateKeyDer)".into(), KeyPair::try_from(&any)),
+		("from_pem".into(), KeyPair::from_pem(&pem)),
+	]
 }
 
 pub fn run(ctx: &mut Ctx) -> Report {
-	let rule = "artefacts (certificate self-signed / issuer-signed, CSR, CRL) x every signing algorithm of the build x locally held and remote (recording) keys x seeded random parameter sets; remote signer failing at its k-th call over a history of generations; non-trivial = one (kind, algorithm, key location, parameter set)";
+	let rule = "artefacts (certificate self-signed / issuer-signed, CSR, CRL) x every signing algorithm of the build x locally held, remote (recording) and loaded (every key-loading entry point) keys x seeded random parameter sets; remote signer failing at its k-th call over a history of generations; non-trivial = one (kind, algorithm, key location, parameter set)";
 	let mut s = Suite::new(ctx, "C01", rule);
 	let n = if s.ctx.thorough { 60 } else { 6 };
 	// signers: local and remote, per algorithm
@@ -58,7 +84,30 @@ pub fn run(ctx: &mut Ctx) -> Report {
 				(s.ctx.key(&name), None)
 			};
 			let cert = p.real().unwrap().self_signed(&key).unwrap();
-			signers.push(Signer { alg, name, key, remote: rem, cert, p });
+			let origin = if rem.is_some() { "remote" } else { "local" }.to_string();
+			signers.push(Signer { alg, name, key, remote: rem, cert, p, origin, truth_spki: None });
+		}
+	}
+	// the same keys after a trip through every loading entry point: a loaded key must sign
+	// under the algorithm it reports, verifiably under the public key OpenSSL derives from
+	// the same private key
+	#[cfg(not(feature = "nocrypto"))]
+	for alg in keys::build_algs() {
+		let name = alg_name(alg).to_string();
+		let pkcs8: Vec<u8> = if name.starts_with("rsa") { s.ctx.rsa_fixture.clone() } else { s.ctx.key(&name).serialize_der() };
+		let truth = openssl_spki_of_pkcs8(&pkcs8);
+		for (loader, res) in loaded_keys(alg, &pkcs8) {
+			s.rep.count(&format!("loaded:{}:{}", loader, if res.is_ok() { "ok" } else { "err" }));
+			let Ok(key) = res else { continue };
+			let key = Arc::new(key);
+			let reported = key.algorithm();
+			let rname = alg_name(reported).to_string();
+			let mut p = PCert::empty();
+			p.serial = Some(vec![4]);
+			p.dn = Dn(vec![(DnT::Cn, DnV::Utf8(format!("issuer {} via {}", name, loader)))]);
+			p.ca = Ca::Ca(None);
+			let Ok(cert) = p.real().unwrap().self_signed(&key) else { continue };
+			signers.push(Signer { alg: reported, name: rname, key, remote: None, cert, p, origin: loader, truth_spki: truth.clone() });
 		}
 	}
 	for sg in &signers {
@@ -170,9 +219,9 @@ pub fn run(ctx: &mut Ctx) -> Report {
 }
 
 fn check_artefact(s: &mut Suite, sg: &Signer, kind: &str, der: &[u8], spec_line: &str) {
-	let line = format!("{} alg={} remote={} der={}", kind, sg.name, sg.remote.is_some(), hex(der));
+	let line = format!("{} alg={} key={} der={}", kind, sg.name, sg.origin, hex(der));
 	s.rep.case(&line, true);
-	s.rep.count(&format!("artefact:{}:{}:{}", kind, sg.name, if sg.remote.is_some() { "remote" } else { "local" }));
+	s.rep.count(&format!("artefact:{}:{}:{}", kind, sg.name, if sg.remote.is_some() { "remote" } else if sg.truth_spki.is_some() { "loaded" } else { "local" }));
 	let Some((tbs, _alg, sig)) = crate::der::split_signed(der) else {
 		s.rep.violate("C01:outer-structure", "artefact is not SEQUENCE { tbs, algorithm, BIT STRING }", line);
 		return;
@@ -210,5 +259,12 @@ fn check_artefact(s: &mut Suite, sg: &Signer, kind: &str, der: &[u8], spec_line:
 		Some(true) => s.rep.count("oracle_openssl_verify"),
 		Some(false) => s.rep.violate(&format!("C01:openssl-verify:{}", kind), "OpenSSL rejects the signature", line.clone()),
 		None => s.rep.count("oracle_openssl_unavailable"),
+	}
+	// loaded keys: the public key OpenSSL derives from the same private key must verify too
+	if let Some(truth) = &sg.truth_spki {
+		match openssl_verify(kind, der, truth) {
+			Some(true) => s.rep.count("oracle_openssl_verify_truth_key"),
+			Some(false) | None => s.rep.violate(&format!("C01:openssl-verify:{}:loaded-key", kind), "OpenSSL rejects the signature under the public key it derives from the same private key (or cannot use the artefact)", format!("{}\ntrue SubjectPublicKeyInfo: {}\nrcgen SubjectPublicKeyInfo: {}", line, hex(truth), hex(&sg.key.public_key_der()))),
+		}
 	}
 }
